@@ -438,6 +438,7 @@ type decOut struct {
 	Link     *simnet.Link
 	Consumed int // bytes taken from the link by the decoder (stream decoders)
 	NoSuch   bool
+	Buf      []byte // the buffer a byte decoder was given
 }
 
 func isStreamDecoder(d string) bool { return d == "decode" || d == "make" }
@@ -524,8 +525,13 @@ func (n *Node) decode(b *Build, typ, decoder string, data []byte, sched *simnet.
 	switch decoder {
 	case "unmarshal":
 		buf := n.guard.place(data)
+		if n.spareTail != nil {
+			whole := append(append(make([]byte, 0, len(data)+len(n.spareTail)), data...), n.spareTail...)
+			buf = whole[:len(data)]
+		}
 		rec := newRec()
 		out.Call = safeCall(alloc, steps, func() { out.Err = rec.UnmarshalBebop(buf) })
+		out.Buf = buf
 		out.Rec = rec
 	case "mustunmarshal":
 		if t.MustUnmarshal == nil {
@@ -535,6 +541,7 @@ func (n *Node) decode(b *Build, typ, decoder string, data []byte, sched *simnet.
 		buf := n.guard.place(data)
 		rec := t.New()
 		out.Call = safeCall(alloc, steps, func() { t.MustUnmarshal(rec, buf) })
+		out.Buf = buf
 		out.Rec = rec
 	case "makefrombytes":
 		if t.MakeFromBytes == nil {
@@ -543,6 +550,7 @@ func (n *Node) decode(b *Build, typ, decoder string, data []byte, sched *simnet.
 		}
 		buf := n.guard.place(data)
 		out.Call = safeCall(alloc, steps, func() { out.Rec, out.Err = t.MakeFromBytes(buf) })
+		out.Buf = buf
 	case "mustmakefrombytes":
 		if t.MustMakeFromBytes == nil {
 			out.NoSuch = true
@@ -550,6 +558,7 @@ func (n *Node) decode(b *Build, typ, decoder string, data []byte, sched *simnet.
 		}
 		buf := n.guard.place(data)
 		out.Call = safeCall(alloc, steps, func() { out.Rec = t.MustMakeFromBytes(buf) })
+		out.Buf = buf
 	case "decode", "make":
 		if decoder == "make" && t.Make == nil {
 			out.NoSuch = true
